@@ -390,6 +390,14 @@ func (b *Batch) setFlagWithErr(f RecordFlag, i int, errs []error) {
 				// records in the split record.
 				from, to := b.findSplitRecord(idx)
 				for j := from; j <= to; j++ {
+					if b.recordStatuses[j].Flag == RecordFlagFilter {
+						// A filtered record's status can't be changed anymore
+						// (see Filter). Flipping it would also make it active
+						// again without adjusting filterCount, shifting the
+						// active indices of every record after it, so the next
+						// Nack in the same batch would hit the wrong record.
+						continue
+					}
 					b.recordStatuses[j].Flag = f
 					b.recordStatuses[j].Error = err
 				}
